@@ -193,6 +193,20 @@ TEXT = {
         note=COMMON_NOTE + " The padding model follows std::fmt::Formatter::pad_integral.",
         technique="TLC model checking of rounding (MC_Round) + TLC-generated exhaustive small scope replayed + TLA+ trace validation",
         ref="DESIGN.md section 7 C16"),
+    "C17": dict(
+        level="The harness is built with the crate's serde and serde-json features (absent from the pinned test run). The specification "
+              "requires: the serialized document is a JSON string (default form, serde_json::Value, a recording token Serializer) "
+              "or a JSON number of the RFC 8259 grammar inside {\"v\":...} (json_num / json_num_option) whose numeral relates to the "
+              "decimal exactly as Display does (C04's relation: digits and scale preserved wherever Display preserves them); "
+              "deserializing it gives exactly ParseValue of that numeral and a decimal equal to the original; beyond the "
+              "configured scale limit the adapters report an error; None <-> null. JSON documents (numbers of 1..2000 digits, "
+              "fractions, exponents around the limit, numeric strings, whitespace, 28 malformed shapes) must be read digit for "
+              "digit or rejected with an error value, never a panic; integer tokens of every width (MIN/MAX/random), f32/f64 "
+              "tokens (exact IEEE value, NaN/inf => error) and str/String tokens likewise. Known finding KF-C17-value-through-f64 "
+              "(serde_json::from_value path) is reported as KNOWN-FINDING.",
+        note=COMMON_NOTE + " serde, serde_json, serde_derive as resolved offline.",
+        technique="TLA+ trace validation with TLC (numeral and JSON-number grammars, ParseValue, Display relation of the specification)",
+        ref="DESIGN.md section 7 C17"),
     "C18": dict(
         level="TLC validates traces of constructors, accessors, digits()/count_digits(), normalized(), with_scale / "
               "to_owned_with_scale / with_prec extension against the representation-level operators of the TLA+ "
